@@ -760,7 +760,7 @@ pub fn run(rep: &Report) {
     rep.assume("thread interleavings inside B-tree operations are those the OS scheduler produces under jitter and 16 cores; only the named pause points are forced");
     install_hook();
     let (n_scripted, n_stress) = match rep.tier {
-        Tier::Quick => (450u64, 1_500u64),
+        Tier::Quick => (900u64, 4_000u64),
         Tier::Thorough => (9_000u64, 60_000u64),
     };
     let t = crate::report::tiny();
